@@ -13,7 +13,10 @@ class HeapMixin:
     def field_type(self, cls, field):
         sh = self.reg.shapes.get(cls, {})
         if field in sh:
-            return parse_type(sh[field])
+            ty = parse_type(sh[field])
+            if ty[0] == "lock":
+                ty = ("lock", self.lock_kind(cls, field) or ty[1])
+            return ty
         ci = self.repo.find_class(cls)
         if ci is not None:
             for (n, ann, _d) in self.repo.all_fields(ci):
@@ -25,6 +28,26 @@ class HeapMixin:
                 for st in ast.walk(init[0]):
                     if isinstance(st, ast.AnnAssign) and isinstance(st.target, ast.Attribute) and st.target.attr == field:
                         return self.ann_type(st.annotation, init[1].mod.relpath)
+        return None
+
+    def lock_kind(self, cls, field):
+        """Lock or RLock, read from the class's __init__ (the contract does not get to choose)"""
+        ci = self.repo.find_class(cls)
+        if ci is None:
+            return None
+        init = self.repo.lookup_method(ci, "__init__")
+        if init is None:
+            return None
+        for st in ast.walk(init[0]):
+            if isinstance(st, (ast.Assign, ast.AnnAssign)):
+                tg = st.targets if isinstance(st, ast.Assign) else [st.target]
+                for t in tg:
+                    if isinstance(t, ast.Attribute) and t.attr == field and st.value is not None:
+                        src = ast.unparse(st.value)
+                        if "RLock" in src:
+                            return "RLock"
+                        if "Lock" in src:
+                            return "Lock"
         return None
 
     # ------------------------------------------------------------ attributes
